@@ -329,9 +329,11 @@ def run(ctx):
         ev = A.error_variant_blocks(f, "OracleMaxConfidenceExceeded")
         atoms = A.guard_atoms(prog, f, ev, ctx.slicer) if ev else []
         g = [a for a in atoms if a.kind == "cmp" and a.rel == "lt" and a.lhs.has_const("U32_MAX") and a.lhs.has_call(prog, {"name": "checked_div"}) and maxp in a.lhs.params
-             and a.rhs.has_const(mult) and not a.rhs.has_const("U32_MAX")]
+             and a.rhs.has_const(mult) and not a.rhs.has_const("U32_MAX")
+             # the rejected quantity is the raw scaled confidence, not the value already clamped to MAX_CONF_INTERVAL of the price
+             and not a.rhs.has_const("MAX_CONF_INTERVAL") and not a.rhs.has_call(prog, {"name": "min"})]
         ok, _ = A.must_pass(f, [a.switch[0] for a in g]) if g else (False, None)
-        ctx.inst("C09.R4", "conf-reject/" + who, bool(g) and ok, "error_if(conf*%s > price*max_conf/U32_MAX) on every successful path" % mult, [a.describe() for a in atoms][:3] if not g else "ok", f.bloc(ev[0]) if ev else f.loc(f.raw["span"]))
+        ctx.inst("C09.R4", "conf-reject/" + who, bool(g) and ok, "error_if(raw conf*%s > price*max_conf/U32_MAX), tested before the 5%% clamp, on every successful path" % mult, [a.describe() for a in atoms][:3] if not g else "ok", f.bloc(ev[0]) if ev else f.loc(f.raw["span"]))
         # result = min(conf, price * MAX_CONF_INTERVAL)
         mc = [c for c in f.calls() if c.callee and c.callee["name"] == "min"]
         okm = False
